@@ -35,8 +35,15 @@ def both(fn):
             out[name] = fn()
         except IndexError:
             out[name] = ERR
+        except (OverflowError, ValueError, OSError):
+            out[name] = ERR - 1        # raised, but not the documented rejection
     SB._USE_CYTHON = PJ._USE_CYTHON = WH._USE_CYTHON = NATIVE
     return out
+
+
+def wide(r):
+    """Values that may exceed 32 bits (TLC's integers and its JSON reader wrap them): two limbs each."""
+    return {k: [v // 2 ** 30, v % 2 ** 30] for k, v in r.items()}
 
 
 def secs(start, dt):
@@ -90,7 +97,7 @@ def conv_calls(tier, rng):
                 for t in (-1, -g // 2, -g + 1, -g, -g - 1, -3 * g - g // 3, -86400 - 7):
                     d = start + timedelta(seconds=t)
                     r = both(lambda: p.dateToIdx(d))
-                    calls.append(dict(op="pd2ix", g=g, span=span, x=t, **r))
+                    calls.append(dict(op="pd2ix", g=g, span=span, x=t, **wide(r)))
     # instants thousands of years away (an open-ended leave "until 6200-01-01"): more slots than a C int holds.  No value is
     # claimed for the project-level conversion (py = cy only, C13); the slot table clamps to its last / first index when asked to
     for g in (60, 3600):
@@ -102,11 +109,25 @@ def conv_calls(tier, rng):
         sb = SB.Scoreboard(start, start + timedelta(hours=6), g, None)
         for far in (datetime(6200, 1, 1), datetime(9999, 12, 31), datetime(2500, 1, 1)):
             r = both(lambda: p.dateToIdx(far))
-            calls.append(dict(op="pd2ix", g=g, span=7 * 86400, x=-2, **r))
+            calls.append(dict(op="pd2ix", g=g, span=7 * 86400, x=-2, **wide(r)))
             r = both(lambda: sb.dateToIdx(far, True))
             calls.append(dict(op="d2iclamp", g=g, span=6 * 3600, x=1, **r))
         r = both(lambda: sb.dateToIdx(datetime(1, 1, 2), True))
         calls.append(dict(op="d2iclamp", g=g, span=6 * 3600, x=-1, **r))
+    # a table of minutes that begins in year 1: instants whose index is 2^32 + k must not alias slot k, indices beyond 2^31
+    # are outside every table (rejected, or clamped when asked to)
+    start = datetime(1, 1, 1)
+    for span in (86400, 7200):
+        sb = SB.Scoreboard(start, start + timedelta(seconds=span), 60, None)
+        for k in (0, 5, span // 60, 2 ** 31 + 3 - 2 ** 32):
+            far = start + timedelta(minutes=2 ** 32 + k)
+            for force in (False, True):
+                r = both(lambda: sb.dateToIdx(far, force))
+                calls.append(dict(op="d2ifar", g=60, span=span, force=force, **r))
+        for x in (2 ** 31, 2 ** 32 + 5, 2 ** 31 - 1):
+            for force in (False, True):
+                r = both(lambda: secs(start, sb.idxToDate(x, force)))
+                calls.append(dict(op="i2dfar", g=60, span=span, force=force, **r))
     # long windows (three years): instants and indices far from the project start -- seconds beyond 2^24 must not lose precision
     for g in (60, 900, 3600) if tier == "quick" else (60, 300, 900, 1800, 3600):
         start = datetime(2024, 1, 1)
